@@ -20,14 +20,15 @@ NOT_APPLICABLE["C07"] = ("requires symbolic execution of real public-key key gen
 
 # ------------------------------------------------------------------------------------------------
 HASHER = ["util::NormalizingHasher::new", "util::NormalizingHasher::hash_buf", "util::NormalizingHasher::done"]
+NREADER = ["normalize_lines::NormalizedReader::{new,read,fill_buffer,cleanup_buffer}", "normalize_lines::replace_newlines", "util::fill_buffer"]
 PROPS["C14"] = {
     "level_text": "Bounded model checking of the real canonicalisation code: for every chunk content within the stated "
                   "lengths and every reachable carry state, the SAT solver shows the streaming hasher's transcript equals a "
                   "byte-at-a-time reference transducer; one inductive step covers all chunkings.",
     "level_note": "Bounds: chunk lengths as listed in evidence; hash primitive = injective transcript model; Kani's std model "
                   "and CBMC are trusted; memchr SIMD paths not exercised.",
-    "inject": [("src/lib.rs", "c14_hasher")],
-    "mem_gb": 10,
+    "inject": [("src/lib.rs", "c14_hasher"), ("src/normalize_lines.rs", "c14_norm"), ("src/packet/literal_data.rs", "c14_lit")],
+    "mem_gb": 14,
     "bounds": "hasher: one chunk of L<=4 (quick) / L<=6 (thorough) arbitrary bytes from pre-state in {fresh, "
               "after-CR}, plus two-chunk compositions",
     "outside": "memchr SIMD paths (Kani compiles the portable fallback); inputs longer than the stated bounds",
@@ -42,6 +43,26 @@ PROPS["C14"] = {
         H("c14_hasher_two_2_1", "c14_hasher", "quick", 600, "two chunks 2+1", HASHER, "L=3"),
         H("c14_hasher_two_2_2", "c14_hasher", "thorough", 900, "two chunks 2+2", HASHER, "L=4"),
         H("c14_hasher_binary_3", "c14_hasher", "quick", 300, "binary mode identity", HASHER, "L=3"),
+    ] + [
+        H("c14_replace_%d" % l, "c14_norm", "quick" if l <= 2 else "thorough", 600 if l <= 2 else 1800,
+          "replace_newlines(x, CRLF) == reference for every x of length %d" % l,
+          ["normalize_lines::replace_newlines"], "L=%d" % l) for l in range(0, 6)
+    ] + [
+        H("c14_reader_small_3", "c14_norm", "quick", 600, "NormalizedReader on every 3-byte source", NREADER, "N=3"),
+        H("c14_reader_small_4", "c14_norm", "thorough", 900, "NormalizedReader on every 4-byte source", NREADER, "N=4"),
+        H("c14_reader_edge_512", "c14_norm", "quick", 900, "512-byte source, symbolic bytes 509..511 (end of a full buffer)", NREADER, "N=512, 3 symbolic bytes"),
+        H("c14_reader_edge_514", "c14_norm", "quick", 900, "514-byte source, symbolic bytes 510..512 straddling the 512 edge", NREADER, "N=514, 3 symbolic bytes"),
+        H("c14_reader_edge_1026", "c14_norm", "thorough", 1800, "1026-byte source, symbolic bytes 1022..1024 straddling the second edge", NREADER, "N=1026, 3 symbolic bytes"),
+    ] + [
+        H("c14_crlf_%d_%d" % ab, "c14_lit", "quick" if sum(ab) <= 4 else "thorough", 600,
+          "CrLfCheckReader over chunks of %d+%d symbolic bytes: accepts iff no bare LF, data unchanged" % ab,
+          ["packet::literal_data::CrLfCheckReader::{new,read}"], "chunks %d+%d" % ab)
+        for ab in [(1, 1), (2, 1), (1, 2), (2, 2), (3, 2), (4, 0)]
+    ] + [
+        H("c14_utf8_%d_%d" % ab, "c14_lit", "quick" if sum(ab) <= 3 else "thorough", 900,
+          "Utf8CheckReader over chunks of %d+%d symbolic bytes then EOF: accepts iff concatenation is valid UTF-8" % ab,
+          ["packet::literal_data::Utf8CheckReader::{new,read}"], "chunks %d+%d" % ab)
+        for ab in [(1, 1), (2, 1), (1, 2), (2, 2), (1, 3), (3, 1)]
     ],
 }
 
@@ -70,3 +91,107 @@ PROPS["C17"] = {
     "assumptions": [FMT_STUBS],
     "harnesses": list(C17_CODEC),
 }
+
+# ------------------------------------------------------------------------------------------------
+SIGN_FUNCS = ["packet::SignatureConfig::{sign,into_hasher,hash_signature_data,trailer,sign_key,sign_subkey_binding,"
+              "sign_primary_key_binding,sign_certification_third_party}", "packet::signature::config::SignatureHasher::sign",
+              "packet::signature::types::serialize_for_hashing", "packet::Subpacket::to_writer", "util::NormalizingHasher",
+              "packet::Signature::{from_config,verify,verify_key_third_party,verify_subkey_binding,verify_primary_key_binding,"
+              "verify_third_party_certification}", "normalize_lines::NormalizedReader"]
+SIG_ASSUME = ["hash primitive replaced by an injective transcript recorder via kani::stub(HashAlgorithm::new_hasher) (ideal hash)",
+              "public-key primitive replaced by a mock SigningKey/VerifyingKey: sign returns the digest, verify accepts iff "
+              "digest == signature bytes (ideal signature)", FMT_STUBS]
+C11_H = [
+    H("c11_fields_v4", "c11_sig", "quick", 600, "hash_signature_data + trailer, v4: every type/pk octet, creation time + opaque subpacket (critical bit symbolic)", SIGN_FUNCS, "hashed area 10 bytes"),
+    H("c11_fields_v6", "c11_sig", "quick", 600, "hash_signature_data + trailer, v6 (u32 hashed length)", SIGN_FUNCS, "hashed area 10 bytes"),
+    H("c11_sign_data_v4_2", "c11_sig", "quick", 420, "v4 Binary|Text data signature over 2 symbolic bytes: digest == RFC 5.2.4 transcript; own verify accepts", SIGN_FUNCS, "doc 2 bytes; hashed area = creation time + 1 opaque subpacket (symbolic type/critical/body); pk alg octet symbolic"),
+    H("c11_sign_data_v6_2", "c11_sig", "quick", 420, "v6 (salted) data signature, as above", SIGN_FUNCS, "doc 2 bytes; 16-byte salt with 2 symbolic bytes"),
+    H("c11_sign_data_v4_3", "c11_sig", "thorough", 420, "v4 data signature over 3 symbolic bytes", SIGN_FUNCS, "doc 3 bytes"),
+    H("c11_sign_key_v4", "c11_sig", "quick", 420, "direct-key/key-revocation, v4 signer over v4|v6 signee: 0x99/0x9B framing", SIGN_FUNCS, "key bodies 3 and 5 symbolic bytes"),
+    H("c11_sign_key_v6", "c11_sig", "quick", 420, "direct-key/key-revocation, v6 signer", SIGN_FUNCS, "key bodies 3 and 5 symbolic bytes"),
+    H("c11_sign_subkey_binding_v4", "c11_sig", "quick", 420, "0x18 v4: primary then subkey framing", SIGN_FUNCS, "key bodies 3+4 bytes"),
+    H("c11_sign_subkey_binding_v6", "c11_sig", "thorough", 420, "0x18 v6", SIGN_FUNCS, "key bodies 3+4 bytes"),
+    H("c11_sign_primary_binding_v4", "c11_sig", "thorough", 420, "0x19 v4: primary then subkey framing, signer = subkey", SIGN_FUNCS, "key bodies 3+4 bytes"),
+    H("c11_sign_primary_binding_v6", "c11_sig", "quick", 420, "0x19 v6", SIGN_FUNCS, "key bodies 3+4 bytes"),
+    H("c11_sign_cert_v4", "c11_sig", "quick", 420, "certifications 0x10-0x13,0x30 over user id | attribute (0xB4|0xD1 len32)", SIGN_FUNCS, "key bodies 3 bytes, id body 3 bytes"),
+    H("c11_sign_cert_v6", "c11_sig", "thorough", 420, "certifications v6", SIGN_FUNCS, "key bodies 3 bytes, id body 3 bytes"),
+    H("c11_verify_v3_2", "c11_sig", "quick", 420, "v3 signature over RFC transcript (doc||type||time) accepted by verify", SIGN_FUNCS, "doc 2 bytes"),
+]
+PROPS["C11"] = {
+    "inject": [("src/lib.rs", "c11_sig")],
+    "mem_gb": 14,
+    "level_text": "Bounded model checking of the real signing/verifying code with the hash and public-key primitives replaced by "
+                  "ideal models: for every value of the symbolic fields the digest handed to the key equals the RFC 9580 5.2.4 "
+                  "transcript built by an independent reference.",
+    "level_note": "Bounds: documents <= 3 bytes, key bodies <= 5 bytes, hashed area 10 bytes (2 subpackets), SHA-256 id, salt 16 bytes. "
+                  "Ideal hash + ideal signature models; real key serialisation is C05's subject.",
+    "bounds": "documents 2-3 bytes; key bodies 3-5 bytes; hashed area 10 bytes; all pk-alg octets; sig types 0x00,0x01,0x10-0x13,0x18,0x19,0x1F,0x20,0x30; v3(verify),v4,v6",
+    "outside": "64 KiB hashed areas; real RSA/ECC key bodies; hash algorithms other than id 8 as data (the id octet itself is covered by C02)",
+    "assumptions": SIG_ASSUME,
+    "harnesses": C11_H,
+}
+
+# ------------------------------------------------------------------------------------------------
+C05_CODEC = [
+    H("c05_subpacket_len_parse_total", "c05_codec", "quick", 600, "every 5-octet string: SubpacketLength parser == RFC decoder, re-serialises identically, write_len", ["packet::SubpacketLength::{try_from_reader,to_writer,write_len,len}"], "5 arbitrary octets"),
+    H("c05_subpacket_len_encode", "c05_codec", "quick", 600, "every u32: encode is minimal RFC class, roundtrips", ["packet::SubpacketLength::{encode,to_writer,try_from_reader}"], "full u32"),
+    H("c05_s2k_roundtrip_2", "c05_codec", "quick", 600, "every 2-octet string as S2K specifier", ["types::StringToKey::{try_from_reader,to_writer,write_len,id}"], "2 arbitrary octets"),
+    H("c05_s2k_roundtrip_9", "c05_codec", "thorough", 900, "every 9-octet string (truncated salted forms)", ["types::StringToKey::{try_from_reader,to_writer,write_len,id}"], "9 arbitrary octets"),
+    H("c05_s2k_roundtrip_11", "c05_codec", "quick", 900, "every 11-octet string (iterated+salted complete)", ["types::StringToKey::{try_from_reader,to_writer,write_len,id}"], "11 arbitrary octets"),
+    H("c05_s2k_roundtrip_20", "c05_codec", "quick", 1200, "every 20-octet string (argon2 complete)", ["types::StringToKey::{try_from_reader,to_writer,write_len,id}"], "20 arbitrary octets"),
+    H("c05_mpi_roundtrip_4", "c05_codec", "quick", 900, "every 4-octet string with bit count <= 32 as MPI", ["types::Mpi::{try_from_reader,to_writer,write_len}", "parsing_reader::BufReadParsing::take_bytes"], "4 octets, bits<=32"),
+    H("c05_mpi_roundtrip_6", "c05_codec", "quick", 1200, "every 6-octet string with bit count <= 32 as MPI", ["types::Mpi::{try_from_reader,to_writer,write_len}", "parsing_reader::BufReadParsing::take_bytes"], "6 octets, bits<=32"),
+    H("c05_mpi_from_slice_3", "c05_codec", "quick", 900, "Mpi::from_slice on every 3-octet value (leading-zero cases)", ["types::Mpi::{from_slice,to_writer,try_from_reader}"], "3 octets"),
+]
+PROPS["C05"] = {
+    "inject": [("src/lib.rs", "c05_codec"), ("src/lib.rs", "c17_codec")],
+    "mem_gb": 12,
+    "level_text": "Bounded model checking of the real parsers/serialisers: for every byte string of the stated lengths the solver "
+                  "shows parse/serialise are mutually inverse, write_len equals the octets written and canonical inputs "
+                  "re-serialise identically, against independent RFC 9580 decoders.",
+    "level_note": "Bounds per harness (byte-string lengths) in evidence; MPIs <= 32 bits; packet-level objects as listed. "
+                  "Logging/error formatting stubbed. Kani/CBMC trusted.",
+    "bounds": "length codecs: full width; S2K specifiers 2/9/11/20 octets; MPIs <= 32 bits in 4/6 octets",
+    "outside": "RSA/DSA/ECC parameter validation; 64 KiB subpacket areas; composite certificates beyond the listed harnesses",
+    "assumptions": [FMT_STUBS],
+    "harnesses": C05_CODEC + [dict(h, tier="thorough") if h["name"] not in ("c17_header_new_roundtrip", "c17_header_parse_total") else h for h in C17_CODEC],
+}
+
+# ------------------------------------------------------------------------------------------------
+PROPS["C15"] = {
+    "claimed": False,
+    "inject": [("src/lib.rs", "c15_msg")],
+    "mem_gb": 16,
+    "level_text": "", "level_note": "", "bounds": "", "outside": "", "assumptions": [FMT_STUBS],
+    "harnesses": [
+        H("c15_esk_skesk_seipd1", "c15_msg", "quick", 900, "SKESK(version symbolic) + SEIPDv1 header through Message::from_bytes: kept iff v4", ["composed::Message::from_bytes", "composed::message::parser::{MessageParser::run,visit_esk,esk_filter}", "packet::PacketParser"], "13-byte message, 1 symbolic octet"),
+    ],
+}
+
+# ------------------------------------------------------------------------------------------------
+IO_F = ["util::fill_buffer", "util::fill_buffer_bytes", "parsing_reader::BufReadParsing::{read_arr,take_bytes}"]
+PROPS["C09"] = {
+    "inject": [("src/lib.rs", "c09_io")],
+    "mem_gb": 12,
+    "level_text": "Bounded model checking of the real buffer-filling primitives under a source model whose read sizes and fault "
+                  "point are symbolic: the solver shows the result is the same for every fragmentation and that a source error "
+                  "always surfaces as an error.",
+    "level_note": "Bounds: data <= 5 bytes, <= 3 symbolic short reads then unrestricted, single fault. Higher streaming layers "
+                  "(generators, decryptors) are covered only as far as listed in evidence.",
+    "bounds": "data <= 5 bytes; read schedule = 3 symbolic cut sizes in 1..8; fault at call 0..3",
+    "outside": "adversarial schedules on long inputs; multiple faults; std::io::copy Interrupted retry; full message reader",
+    "assumptions": [FMT_STUBS, "source model: BufRead/Read over a slice with symbolic per-call window"],
+    "harnesses": [
+        H("c09_fill_buffer_5_4", "c09_io", "quick", 600, "fill_buffer: 5 bytes of data into a 4-byte buffer under every 3-cut schedule", IO_F, "D=5,N=4"),
+        H("c09_fill_buffer_3_4", "c09_io", "quick", 600, "fill_buffer: source shorter than buffer", IO_F, "D=3,N=4"),
+        H("c09_fill_buffer_4_4", "c09_io", "thorough", 600, "fill_buffer: exact fit", IO_F, "D=4,N=4"),
+        H("c09_fill_buffer_fault", "c09_io", "quick", 900, "fill_buffer: source error at symbolic call => Err iff reached", IO_F, "D=5,N=4, fault at 0..3"),
+        H("c09_fill_bytes_5_4", "c09_io", "quick", 900, "fill_buffer_bytes over BufRead, D=5 N=4", IO_F, "D=5,N=4"),
+        H("c09_fill_bytes_3_4", "c09_io", "thorough", 900, "fill_buffer_bytes, short source", IO_F, "D=3,N=4"),
+        H("c09_read_arr_4", "c09_io", "quick", 600, "read_arr::<4> on 0..5 bytes under every schedule: all-or-error", IO_F, "<=5 bytes"),
+        H("c09_take_bytes_3", "c09_io", "quick", 900, "take_bytes(3) on 0..4 bytes under every schedule: all-or-error", IO_F, "<=4 bytes"),
+    ],
+}
+
+PROPS["PROBE"] = {"claimed": False, "inject": [("src/lib.rs", "probe")], "mem_gb": 6, "level_text": "", "level_note": "", "bounds": "", "outside": "", "assumptions": [],
+    "harnesses": [H(n, "probe", "quick", 90) for n in ["p1_match_direct", "p2_match_in_subpacket", "p3_write_len"]]}
